@@ -265,7 +265,8 @@ type guard struct {
 
 func newGuard(prop, unit string, pending bool) *guard {
 	g := &guard{prop: prop, unit: unit, done: make(chan struct{})}
-	if p := os.Getenv("VERIF_FAIL"); p != "" && pending {
+	// VERIF_PENDING: the driver re-runs a shard whose process died without leaving a case behind
+	if p := os.Getenv("VERIF_FAIL"); p != "" && (pending || os.Getenv("VERIF_PENDING") != "") {
 		g.path = p + ".pending"
 	}
 	go func() {
